@@ -70,7 +70,7 @@ def has_quantifier(e):
     return found
 
 
-def solve(ob, timeout_ms=10000, use_cvc5=True):
+def solve(ob, timeout_ms=10000, use_cvc5=True, fast=False):
     """returns (status, backend, seconds, model-or-None); status in discharged|refuted|unknown"""
     t0 = time.time()
     g = z3.simplify(ob.goal)
@@ -89,6 +89,9 @@ def solve(ob, timeout_ms=10000, use_cvc5=True):
         return "discharged", "z3", time.time() - t0, None
     if r == z3.sat:
         return "refuted", "z3", time.time() - t0, s.model()
+    if fast:
+        # the unit already has several undecided obligations (it cannot be reported as proved any more): no long attempts
+        return "unknown", "z3 (short attempts only: the unit is already undecided)", time.time() - t0, None
     # 2. without the facts that were themselves proved earlier on this path (logically redundant
     #    hypotheses that sometimes derail the sequence solver); only 'unsat' is used from this attempt
     derived = getattr(ob, "derived", None) or set()
@@ -122,10 +125,15 @@ def solve(ob, timeout_ms=10000, use_cvc5=True):
     return "unknown", "z3+cvc5", time.time() - t0, None
 
 
-def discharge_all(obligations, timeout_ms=10000):
-    """solve every obligation, de-duplicating textually identical queries; fills ob.status etc."""
+def discharge_all(obligations, timeout_ms=10000, deadline=None):
+    """solve every obligation, de-duplicating textually identical queries; fills ob.status etc.
+    After `deadline` (wall clock) the remaining obligations are left undecided ('unknown')."""
     cache = {}
+    n_unknown = 0
     for ob in obligations:
+        if deadline is not None and time.time() > deadline + 180:
+            ob.status, ob.backend, ob.time_s, ob.model = "unknown", "unit time budget exhausted", 0.0, None
+            continue
         try:
             h = obligation_hash(ob)
         except Exception:
@@ -135,7 +143,9 @@ def discharge_all(obligations, timeout_ms=10000):
             ob.backend = ob.backend + " (dedup)"
             ob.time_s = 0.0
             continue
-        st, be, dt, model = solve(ob, timeout_ms)
+        st, be, dt, model = solve(ob, timeout_ms, fast=(n_unknown >= 6))
+        if st == "unknown":
+            n_unknown += 1
         ob.status, ob.backend, ob.time_s, ob.model = st, be, dt, model
         if h is not None:
             cache[h] = (st, be, dt, model)
